@@ -236,12 +236,13 @@ pub fn run(ctx: &Ctx) -> (Report, PropertyMeta) {
     health(&mut report, "two-busy-streams", total, 50);
     health_abs(&mut report, "fairness-on-a-real-socket", 1000);
     health_abs(&mut report, "receiver-moved-to-another-task", 2000);
+    health_abs(&mut report, "stream-replaced-under-a-live-key", 2000);
     let observed = report.measures.get("max_bypass_observed").copied().unwrap_or(0);
     report.notes.push(format!("largest number of other-stream deliveries that went ahead of a ready stream in the exhaustive part: {} (bound asserted: 2n)", observed));
 
     let meta = PropertyMeta {
         level: "exploration",
-        rule: "the library's real fair queue driven by schedule strings over {Push i, Burst i, Close i, Insert i, Remove i, Recv, Settle, Exhaust (streams yield), Migrate (the receiver is moved to another task: new waker, wakes to the old one reach nobody)}; tokens inside a stream poll run while the queue lock is released (before the stream decides and after it decided but before it is put back). ALL valid strings to the stated depth for 2 and 3 streams, proptest strings (generic, fairness-focused with several busy streams, and with stale wakes) for up to 6 streams. Oracles: (no lost wake-up) the receiver is re-polled only when an executor would (its waker fired since it last returned Pending); whenever it is parked with no wake pending - at every Settle token and after the schedule - no connected stream may hold an undelivered item; end-of-stream only with no streams and block_on_no_clients=false. (bounded bypass) from the moment a stream holds an item until it is served, at most 2n deliveries from other streams (n = streams ever inserted; bursts of 14 items make any monopolising order exceed the bound). The same bypass bound is observed through real sockets in the sim: PULL/ROUTER/DEALER/SUB/XPUB/REP with 2..5 raw peers whose backlogs of 1..60 complete messages are all on the wire before the first recv; every peer that still has messages queued is served within 2n deliveries, and recv never stays pending while messages remain. Non-trivial = a wake or insert lands inside a window, or two streams each hold >= 2 items at some point; distinct by schedule".into(),
+        rule: "the library's real fair queue driven by schedule strings over {Push i, Burst i, Close i, Insert i, Remove i, Recv, Settle, Exhaust (streams yield), Migrate (the receiver is moved to another task: new waker, wakes to the old one reach nobody), Replace i (a new stream inserted under a key that is still registered - a peer coming back under its identity)}; tokens inside a stream poll run while the queue lock is released (before the stream decides and after it decided but before it is put back). ALL valid strings to the stated depth for 2 and 3 streams, proptest strings (generic, fairness-focused with several busy streams, and with stale wakes) for up to 6 streams. Oracles: (no lost wake-up) the receiver is re-polled only when an executor would (its waker fired since it last returned Pending); whenever it is parked with no wake pending - at every Settle token and after the schedule - no connected stream may hold an undelivered item; end-of-stream only with no streams and block_on_no_clients=false. (bounded bypass) from the moment a stream holds an item until it is served, at most 2n deliveries from other streams (n = streams ever inserted; bursts of 14 items make any monopolising order exceed the bound). The same bypass bound is observed through real sockets in the sim: PULL/ROUTER/DEALER/SUB/XPUB/REP with 2..5 raw peers whose backlogs of 1..60 complete messages are all on the wire before the first recv; every peer that still has messages queued is served within 2n deliveries, and recv never stays pending while messages remain. Non-trivial = a wake or insert lands inside a window, or two streams each hold >= 2 items at some point; distinct by schedule".into(),
         assumptions: vec![
             "a correct executor re-polls a task that was woken while running; waker registration once per poll call is therefore not flagged".into(),
             "fairness is not asserted on schedules containing stale wakes (an old waker clone legitimately re-queues its stream with an old ticket)".into(),
